@@ -54,9 +54,9 @@ func zzCRD(name string) *extv1.CustomResourceDefinition {
 		TypeMeta:   metav1.TypeMeta{APIVersion: "apiextensions.k8s.io/v1", Kind: zzCRDKind},
 		ObjectMeta: metav1.ObjectMeta{Name: name},
 		Spec: extv1.CustomResourceDefinitionSpec{
-			Group: "example.org",
-			Names: extv1.CustomResourceDefinitionNames{Kind: "K", Plural: name[:2]},
-			Scope: extv1.ClusterScoped,
+			Group:    "example.org",
+			Names:    extv1.CustomResourceDefinitionNames{Kind: "K", Plural: name[:2]},
+			Scope:    extv1.ClusterScoped,
 			Versions: []extv1.CustomResourceDefinitionVersion{{Name: "v1", Served: true, Storage: true}},
 		},
 	}
